@@ -36,8 +36,8 @@ for name in sorted(os.listdir(os.path.join(here, 'seeded'))):
             break
     ok = any(rc == 1 for _, rc, _ in res)
     print('%-60s %s %s' % (name, 'caught' if ok else 'MISSED', ' '.join('%s:rc=%d,viol=%d' % r for r in res)), flush=True)
-    if not ok and 'no longer manifests' not in meta['caught_by']:
-        bad.append(name)
+    if not ok and 'no longer manifests' not in meta['caught_by'] and 'left open' not in meta['caught_by']:
+        bad.append(name)       # 'left open': recorded gaps of the last round (DESIGN 10.6), not regressions
     subprocess.run(['git', '-C', '/repo', 'worktree', 'remove', '--force', wt])
 print('missed:', bad)
 sys.exit(1 if bad else 0)
